@@ -90,6 +90,7 @@ type PathState struct {
 	hashBufs map[*Obj]*[]*Term
 	wire     map[int]*wireEntry
 	jsonTab  map[string]*wireEntry
+	ldb      map[string]map[string]Value
 
 	nondet bool // the path uses an over-approximating stub: no sample prediction
 
